@@ -1292,10 +1292,14 @@ def oracle(sql, nested_schema, dialect):
                     pos = names_in_order.index(a1.table)
                     if pos > ji + 1:
                         cand = [a for a, cols in src_cols[: ji + 2] if cols and a1.name in cols]
-                        kind = "on-column-bound-to-later-join-despite-visible-candidate" if cand else "on-column-bound-to-later-join"
+                        # exactly ONE visible owner: the join-context fallback had to pick it (the round-6 signature);
+                        # none or several: the name is unresolvable / ambiguous among the visible sources and the recorded
+                        # whole-scope behaviour applies (upstream binds instead of raising)
+                        kind = "on-column-bound-to-later-join-despite-visible-candidate" if len(cand) == 1 else "on-column-bound-to-later-join"
                         return (kind, f"the bare name {a0.sql(dialect=dialect)} in the ON condition of join #{ji + 1} was bound to "
                                       f"{a1.table!r}, which is joined later (available there: {names_in_order[: ji + 2]}"
-                                      + (f"; {cand} expose(s) {a1.name!r}" if cand else "") + f") in {s1!r}")
+                                      + (f"; {cand} expose(s) {a1.name!r}" + ("" if len(cand) == 1 else " (ambiguous among them)") if cand else "")
+                                      + f") in {s1!r}")
         if known and has_using and not dup:
             joins0 = s0.args.get("joins") or []
             simple = (len(s0.expressions) == 1 and isinstance(s0.expressions[0], exp.Star)
